@@ -320,6 +320,10 @@ def run_sequence(ctx, rng, n_ops, spec=None):
         if op["op"] == "bar":
             P.refresh(rng, op["tick"])
             outcome = "ok"
+            if any(regime_flip(P, {"op": "x", "lower": k.lower_tick, "upper": k.upper_tick}) for k in P.A.market.positions):
+                ctx.case(f"bar:boundary-regime-flip:{P.dq}/{P.db}:{P.fee}:skipped")
+                ctx.count("boundary_regime_flip_skipped")
+                return
         elif regime_flip(P, op) or any(regime_flip(P, {"op": "x", "lower": k.lower_tick, "upper": k.upper_tick}) for k in P.A.market.positions):
             # the price sits on a bound to within the kernels' reciprocity error (1e-17): which side it falls on is decided by one unit of
             # the integer sqrt price, and get_liquidity is discontinuous there when one offered amount is zero. Counted, not compared.
